@@ -28,42 +28,44 @@ func TestIbcSpike(t *testing.T) {
 	must("create seq", e.createSequencer(0, 0))
 	must("create seq1", e.createSequencer(1, 1))
 	id := ibcRollappID(0)
-	// state update heights 1..5
-	var bds rollapptypes.BlockDescriptors
-	for h := uint64(1); h <= 5; h++ {
-		bds.BD = append(bds.BD, rollapptypes.BlockDescriptor{Height: h, StateRoot: ibcRoot(h), Timestamp: ibcRaTime(h)})
-	}
-	_, err := e.f.Deliver(&rollapptypes.MsgUpdateState{Creator: e.seqAddr[0].String(), RollappId: id, StartHeight: 1, NumBlocks: 5, BDs: bds})
-	must("update state", err)
-	for _, v := range []string{"ok", "specs1nopath", "specs3", "trusting"} {
-		cid, err := e.createClient(ibcClientState(id, 3, v), ibcRaTime(3), ibcRoot(3), e.valHash(0))
-		must("create client "+v+" "+cid, err)
-		if v != "ok" {
-			_, err = e.f.Deliver(&lctypes.MsgSetCanonicalClient{Signer: e.relayer.String(), ClientId: cid})
-			must("set canonical "+v, err)
+	post := func(start, n uint64) {
+		var bds rollapptypes.BlockDescriptors
+		for h := start; h < start+n; h++ {
+			bds.BD = append(bds.BD, rollapptypes.BlockDescriptor{Height: h, StateRoot: ibcRoot(h), Timestamp: ibcRaTime(h)})
 		}
+		_, err := e.f.Deliver(&rollapptypes.MsgUpdateState{Creator: e.seqAddr[0].String(), RollappId: id, StartHeight: start, NumBlocks: n, BDs: bds})
+		must(fmt.Sprintf("update state %d+%d", start, n), err)
 	}
-	cid := "07-tendermint-0"
+	post(1, 5)
+	post(6, 3)
+	post(9, 1)
+	post(10, 3)
+	// F-D: consensus states at 8 (bogus root) and 10 (agreeing); signed by an unregistered key (actor 3)
+	att := []hdrVal{{3, 1, true}}
+	cid, err := e.createClient(ibcClientState(id, 8, "ok"), ibcRaTime(8), ibcRoot(99), e.valsetOf(att).Hash())
+	must("create attacker client "+cid, err)
+	hd := e.header(hdrSpec{ChainID: id, Height: 10, Trusted: 8, Time: ibcRaTime(10), Root: ibcRoot(10), Vals: att, TrustedVals: att, NextVal: 0, Proposer: 3, ProposerData: -2})
+	m0, _ := clienttypes.NewMsgUpdateClient(cid, hd, e.relayer.String())
+	a, m := e.runTx(m0)
+	must("attacker update to 10: ante", a)
+	must("attacker update to 10: msg", m)
 	_, err = e.f.Deliver(&lctypes.MsgSetCanonicalClient{Signer: e.relayer.String(), ClientId: cid})
-	must("set canonical ok", err)
-	// header at height 4 (state exists), honest
-	mk := func(h uint64, root uint64, signer, prop int) *clienttypes.MsgUpdateClient {
-		hd := e.header(hdrSpec{ChainID: id, Height: h, Trusted: 3, Time: ibcRaTime(h), Root: ibcRoot(root), Signer: signer, TrustedSigner: 0, NextVal: 0, Proposer: prop, ProposerData: -2})
-		m, err := clienttypes.NewMsgUpdateClient(cid, hd, e.relayer.String())
-		if err != nil {
-			t.Fatal(err)
-		}
-		return m
-	}
-	a, m := e.runTx(mk(4, 4, 0, 0))
-	must("update h4 honest ante", a)
-	must("update h4 honest msg", m)
-	a, m = e.runTx(mk(5, 99, 0, 0))
-	must("update h5 wrong root ante", a)
-	must("update h5 wrong root msg", m)
-	a, m = e.runTx(mk(5, 99, 0, 1))
-	must("update h5 wrong root, proposer field = seq of other rollapp: ante", a)
-	must("update h5 wrong root, proposer field = seq of other rollapp: msg", m)
+	must("F-D set canonical with disagreeing cons state at 8", err)
+	// F-A: header at 12 with wrong root, validator set {seq0 power 10 signs, seq1 power 1 absent}, proposer = seq1 (bonded sequencer of rollapp 1)
+	hd = e.header(hdrSpec{ChainID: id, Height: 12, Trusted: 10, Time: ibcRaTime(12), Root: ibcRoot(77), Vals: []hdrVal{{0, 10, true}, {1, 1, false}},
+		TrustedVals: []hdrVal{{0, 1, true}}, NextVal: 0, Proposer: 1, ProposerData: -2})
+	m0, _ = clienttypes.NewMsgUpdateClient(cid, hd, e.relayer.String())
+	a, m = e.runTx(m0)
+	must("F-A conflicting header, proposer = sequencer of another rollapp: ante", a)
+	must("F-A conflicting header, proposer = sequencer of another rollapp: msg", m)
+	cs, ok := e.f.App.IBCKeeper.ClientKeeper.GetClientConsensusState(e.f.Ctx, cid, clienttypes.NewHeight(1, 12))
+	fmt.Println("cons state at 12:", ok, cs)
+	// the same header with proposer = seq0 is refused by the hub
+	hd = e.header(hdrSpec{ChainID: id, Height: 11, Trusted: 10, Time: ibcRaTime(11), Root: ibcRoot(77), Vals: []hdrVal{{0, 1, true}},
+		TrustedVals: []hdrVal{{0, 1, true}}, NextVal: 0, Proposer: 0, ProposerData: -2})
+	m0, _ = clienttypes.NewMsgUpdateClient(cid, hd, e.relayer.String())
+	a, m = e.runTx(m0)
+	must("conflicting header, proposer = seq0: ante", a)
 	// ---- C10 spike
 	canon, _ := e.f.App.LightClientKeeper.GetCanonicalClient(e.f.Ctx, id)
 	conn := e.openConnection(canon)
